@@ -20,6 +20,7 @@ CONSTANTS MaxSteps, DevAvg, DevArr, DevStale,
 CONSTANTS Disturbs,     \* TRUE: between any two calls the thread may decode arbitrary other streams (action Disturb),
                         \*       among them streams whose decode fails at every possible point; decompress then runs on
                         \*       the thread-aware layer (ImplDecompressT)
+          DevInd,       \* open findings indirect.*: Stream::decompress guesses when an entry is written as a reference
           DevRows       \* the PNG row buffers survive a failed decode (Codecs, "Thread history"); TLC must refute it
 
 VARIABLES ss, last, steps,
@@ -37,13 +38,20 @@ Candidates(x) ==
 S0(filters, form, parms, content, allows) ==
     [filters |-> filters, ff |-> IF filters = <<>> THEN "none" ELSE IF Len(filters) = 1 THEN "name" ELSE "array",
      form |-> form, parms |-> parms, length |-> Len(content), content |-> content,
-     allows |-> allows, orc |-> NoOracle]
+     allows |-> allows, orc |-> NoOracle, ind |-> "none",
+     abs |-> [filters |-> filters, fform |-> IF filters = <<>> THEN "none" ELSE IF Len(filters) = 1 THEN "name" ELSE "array",
+              form |-> form, parms |-> parms]]
 \* a chain of zero filters written as /Filter [] (ff = "array") or /Filter null (ff = "null")
-Zero(ff, form, content) == [S0(<<>>, form, <<>>, content, TRUE) EXCEPT !.ff = ff]
+Zero(ff, form, content) == [S0(<<>>, form, <<>>, content, TRUE) EXCEPT !.ff = ff, !.abs.fform = ff]
+
 
 P12 == [present |-> TRUE, pred |-> 12, colors |-> 1, bpc |-> 8, columns |-> 2, early |-> 1]
 P13 == [present |-> TRUE, pred |-> 13, colors |-> 1, bpc |-> 8, columns |-> 2, early |-> 1]
 Rows12 == <<1, 2, 4>>
+\* an entry written as an indirect reference: /DecodeParms n 0 R on a predictor stream, /Filter n 0 R
+IndParms == [S0(<<Flate>>, "dict", <<P12>>, ZStored(PngEncode(<<1, 2>>, 1, 2, <<2>>), 65535), TRUE)
+                EXCEPT !.ind = "parms", !.abs = [filters |-> <<Flate>>, fform |-> "name", form |-> "none", parms |-> <<>>]]
+IndFilter == [S0(<<A85>>, "none", <<>>, A85Encode(<<3, 1, 2>>, TRUE), TRUE) EXCEPT !.ff = "ref", !.ind = "filter", !.abs = NoAbs]
 Starts ==
     {S0(<<>>, "none", <<>>, c, TRUE) : c \in Contents} \cup
     {S0(<<A85>>, "none", <<>>, A85Encode(<<3, 1, 2>>, TRUE), TRUE),
@@ -52,6 +60,7 @@ Starts ==
      S0(<<Flate>>, "array", <<P12>>, ZStored(PngEncode(<<1, 2>>, 1, 2, <<2>>), 65535), TRUE),
      S0(<<A85, Lzw>>, "none", <<>>, A85Encode(LzwEncode(<<3, 1, 2>>, 1, 4094), TRUE), TRUE),
      S0(<<"DCTDecode">>, "none", <<>>, <<255, 216>>, TRUE),
+     IndParms, IndFilter,
      Zero("array", "none", <<3, 1, 2>>), Zero("array", "array", Compressible), Zero("null", "none", Compressible),
      S0(<<>>, "dict", <<P12>>, Compressible, TRUE)}          \* no filter, left-over DecodeParms (class compress.stale-decodeparms)
 
@@ -87,7 +96,7 @@ Step(op, i, arg, new) ==
 Calm == UNCHANGED <<rows, dk>>          \* operations that decode nothing
 \* one decompress on this thread: [s, rows]
 DecompOne(s, rw) == IF Disturbs THEN ImplDecompressT(s, rw, DevRows)
-                    ELSE [s |-> ImplDecompress(s, DevAvg, DevArr, FALSE, DevEmpty), rows |-> rw]
+                    ELSE [s |-> ImplDecompress(s, DevAvg, DevArr, FALSE, DevEmpty, DevInd), rows |-> rw]
 After(rw) == /\ rows' = rw
              /\ dk' = IF rw = CleanRows THEN "none" ELSE dk
 
